@@ -354,7 +354,7 @@ class CallMixin:
         # exceptional outcomes
         for exc, cond in c.raises:
             rs = st.fork()
-            if cond is not None: rs.assume(self.spec_eval(cond, pre, c))
+            if cond is not None: rs.assume(self.spec_eval(cond.lstrip("?"), pre, c))
             self.pending_raises.append((rs, exc))
         # normal outcome: none of the must-raise conditions hold
         for exc, cond in c.raises:
